@@ -342,29 +342,11 @@ class Database(Version):
 
         """
 
-        Since we do not check the schema format number and database text encoding in the master schema, we do that here.
-        This is due to the fact that the database header is not sent into the master schema (although if needed it could
-        retrieve it through the instance of this class sent in).
+        Note:  An empty master schema does not imply that the schema format number and database text encoding are 0.
+               Once a schema has been created both fields stay set, also after every table has been dropped again,
+               so no check is made on them here.
 
         """
-
-        if len(self.master_schema.master_schema_entries) == 0:
-            if (
-                self.database_header.schema_format_number != 0
-                or self.database_header.database_text_encoding != 0
-            ):
-                log_message = (
-                    "No master schema entries found in master schema for version: {} when the database "
-                    "schema format number was: {} and the database text encoding was: {} when both should "
-                    "be 0."
-                )
-                log_message = log_message.format(
-                    self.version_number,
-                    self.database_header.schema_format_number,
-                    self.database_header.database_text_encoding,
-                )
-                self._logger.error(log_message)
-                raise DatabaseParsingError(log_message)
 
         """
 
